@@ -187,6 +187,27 @@ def _suffix_closed(d, live):
     return True
 
 
+def r15_3(facts, res, rule="R15-3"):
+    """The element, attribute and PI factories embed the supplied name in a tag (`<{} />`, `{}=''`, `<?{}?>`) and parse that:
+    an empty rest only says that the *tag* was well-formed.  The name itself has to take part in the acceptance test,
+    otherwise `a b='c'` is an element name (and builds an attribute), `a ` an attribute name, `a b` a PI target."""
+    st = res.rule(rule, instances=0)
+    for path, param in (("xml_info::XmlElement::empty", "name"), ("xml_info::XmlAttribute::empty", "name"),
+                        ("xml_info::XmlProcessingInstruction::empty", "target")):
+        f = facts.fn(path)
+        st["instances"] += 1
+        plid = [q.get("lid") for q in f.get("params", []) if isinstance(q, dict) and q.get("name") == param]
+        ok = False
+        for n in walk(f["body"]):
+            if n.get("k") == "If" and any(m.get("k") == "MethodCall" and m["m"] == "is_empty" for m in walk(n["cond"])):
+                if any(m.get("k") == "Path" and m.get("res") == "Local" and m.get("lid") in plid for m in walk(n["cond"])):
+                    ok = True
+        res.oblige(1, ok)
+        if not ok:
+            res.add(Finding(rule, path.split("::")[-2] + "::empty", "%s accepts its argument when the tag built around it parses with an empty rest; "
+                            "the argument itself is not examined, so white space lets it carry more than a name" % path, f["file"], f["line"], {}))
+
+
 def run(facts, tier):
     import xml10
     res = Result("C15")
@@ -304,4 +325,5 @@ def run(facts, tier):
     if st2["instances"] < 5:
         raise BrokenCheck("R15-2: %d template pairs (floor 5)" % st2["instances"])
     res.functions_analysed = st["instances"]
+    r15_3(facts, res)
     return res
